@@ -279,6 +279,12 @@ func answer(point string, fault int, email, newTok string, shortToken bool, hint
 			// /validate has no body contract: answer something that is not even HTTP-success
 			return sut.Answer{Status: 418, Body: "{"}
 		}
+		if hint%3 == 1 {
+			// a success status with a body that is not the documented JSON at all - what a load balancer's
+			// maintenance page or an HTML error document looks like: still "malformed body", no grace
+			// (added after seeded change C05n)
+			return sut.Answer{Status: okStatus, Body: []string{"<html><body>Down for maintenance</body></html>", "<?xml version=\"1.0\"?><error>busy</error>", "<!DOCTYPE html><title>503</title>"}[(hint/3)%3]}
+		}
 		return sut.Answer{Status: okStatus, Body: okAns.Body[:len(okAns.Body)/2]}
 	case fWrongCode:
 		alt := map[string]int{"validate": 204, "profile": 201, "refresh": 200}[point]
